@@ -455,6 +455,66 @@ def count_nonzero(x, *a, **k):
     return _np.count_nonzero(x, *a, **k)
 
 
+def any_(x, *a, **k):
+    """np.any of symbolic values: one decision (not all entries are zero)"""
+    if not _isobj(x) or a or k.get("axis") is not None:
+        return _np.any(x, *a, **k)
+    flat = _np.asarray(x, dtype=object).reshape(-1)
+    diffs = []
+    for v in flat:
+        if isinstance(v, S.SymBool):
+            c = v.const_value()
+            if c is None:
+                raise OutsideFragment("np.any of undecided comparisons")
+            if c:
+                return True
+            continue
+        d = S.lift(v)
+        if d.is_const():
+            if d.cval() != 0:
+                return True
+            continue
+        kd, kn = S.rf_key(d), S.rf_key(-d)
+        diffs.append((kd, d) if kd <= kn else (kn, -d))
+    if not diffs:
+        return False
+    return not S.PATH.decide(('alleq', tuple(k_ for k_, d in diffs)), ('alleq', [d for k_, d in diffs]))
+
+
+def all_(x, *a, **k):
+    if not _isobj(x) or a or k.get("axis") is not None:
+        return _np.all(x, *a, **k)
+    flat = _np.asarray(x, dtype=object).reshape(-1)
+    for v in flat:
+        if isinstance(v, S.SymBool):
+            if not bool(v):
+                return False
+        else:
+            d = S.lift(v)
+            if d.is_const():
+                if d.cval() == 0:
+                    return False
+            elif bool(S.SymBool('==', d)):
+                return False
+    return True
+
+
+def sign(x):
+    """np.sign of symbolic values: a path split per entry (+1 / -1; exact zero is the measure-zero boundary)"""
+    if not _isobj(x) and not isinstance(x, RF):
+        return _np.sign(x)
+    if isinstance(x, RF):
+        if x.is_const():
+            c = x.cval()
+            return RF.const(1 if c > 0 else (-1 if c < 0 else 0))
+        return RF.const(1) if bool(x > 0) else RF.const(-1)
+    a = _np.asarray(x, dtype=object)
+    out = _np.empty(a.shape, dtype=object).view(S.SymArray)
+    for idx in (_np.ndindex(*a.shape) if a.shape else [()]):
+        out[idx] = sign(S.lift(a[idx]))
+    return out if out.shape else out[()]
+
+
 def array_equal(a, b, *args, **kw):
     """one decision for the whole comparison (elementwise truth tests would split into one path per element)"""
     if not (_isobj(a) or _isobj(b)):
@@ -488,7 +548,7 @@ _OVERRIDES = dict(sin=sin, cos=cos, tan=tan, sqrt=sqrt, exp=exp, log=log, log10=
                   abs=abs_, absolute=abs_, power=power, real=real, imag=imag, iscomplexobj=iscomplexobj,
                   zeros=zeros, ones=ones, empty=empty, full=full, zeros_like=zeros_like, ones_like=ones_like, eye=eye,
                   identity=identity, array=array, asarray=asarray, trapz=trapz, linspace=linspace, isnan=isnan,
-                  count_nonzero=count_nonzero, array_equal=array_equal)
+                  count_nonzero=count_nonzero, array_equal=array_equal, any=any_, all=all_, sign=sign)
 
 
 def make(symbolic_pi=True):
